@@ -40,7 +40,13 @@ def call(I, name, args, e):
         if src == 'bool' and int_bits(ty) and is_term(a0): return a0     # From<bool>: false -> 0, true -> 1
         if src == ty: return args[0]
         # user From impl
-        d = I.f.method('core::convert::From', ty, 'from')
+        d = None
+        want = norm_ty('<%s as core::convert::From<%s>>::from' % (ty, src))
+        cands = [k for k, b_ in I.f.bodies.items() if b_.get('trait') == 'core::convert::From' and b_.get('name') == 'from' and norm_ty(b_.get('self_ty') or '') == ty]
+        for k in cands:
+            if norm_ty(k) == want: d = k
+        if d is None and len(cands) == 1: d = cands[0]
+        if d is None and not cands: d = I.f.method('core::convert::From', ty, 'from')
         if d: return I.call_local(d, [args[0]], e)
         return I.top('into %s -> %s' % (src, ty), e)
     m = re.match(r'^zerocopy::(U16|U32|U64)::<O>::(get|set|new)$', n)
